@@ -34,9 +34,9 @@ def shards(tier, seed):
     n = 12 if tier == "quick" else 16
     for i in range(n):
         out.append({"name": f"dyn{i}", "kind": "dynamic", "part": i, "parts": n,
-                    "subsets": 30 if tier == "quick" else 300})
+                    "subsets": 100 if tier == "quick" else 300})
     for i in range(4 if tier == "quick" else 12):
-        out.append({"name": f"untyped{i}", "kind": "untyped", "n": 1500 if tier == "quick" else 20000})
+        out.append({"name": f"untyped{i}", "kind": "untyped", "n": 5000 if tier == "quick" else 20000})
     return out
 
 
